@@ -80,7 +80,11 @@ func runFree(cfg *Config, work string, real bool) freeOut {
 		if fail < 0 {
 			fail = 1 << 20
 		}
-		script := fmt.Sprintf(`n=$(cat %q 2>/dev/null || echo 0); n=$((n+1)); echo $n > %q; echo "%s $n" >> %q; [ $n -gt %d ]`, cnt, cnt, name, trace, fail)
+		dur := ""
+		if sc.DurMs > 0 {
+			dur = fmt.Sprintf("sleep %d.%03d; ", sc.DurMs/1000, sc.DurMs%1000)
+		}
+		script := fmt.Sprintf(`n=$(cat %q 2>/dev/null || echo 0); n=$((n+1)); echo $n > %q; echo "%s $n" >> %q; %s[ $n -gt %d ]`, cnt, cnt, name, trace, dur, fail)
 		return dag.Step{Name: name, Command: "sh", Args: []string{"-c", script}}
 	}
 	if real {
